@@ -71,7 +71,7 @@ def run(run, P):
                               '%s() takes over `%s` on success; of its failure returns %d are reached with `%s` already deleted and %d with it untouched, all returning the same '
                               'value: whichever convention a caller follows, it frees the object twice or leaks it on the other paths' %
                               (name, p['n'], len(res['rel']), p['n'], len(res['left'])), path)
-    run.require(n >= 1 or run.fixture_mode or run.cfg != 'base', 'R-CONSUME-AGREE: no function that both stores and deletes an owned parameter found')
+    run.require_count(n >= 1 or run.fixture_mode or run.cfg != 'base', 'R-CONSUME-AGREE: no function that both stores and deletes an owned parameter found')
 
 
 def run_handback(run, P):
@@ -151,4 +151,4 @@ def run_handback(run, P):
                               'the field %s is handed to %s(), which may delete or move the object, and on a path to the end of this function the field is not assigned again: it '
                               'keeps a pointer the callee may already have freed, and the record\'s destructor frees it once more' % (fld.split('>')[-1], gn), ctx.path())
         solve(f, Env(), on_event, on_exit, keys, R, key_fn=lambda e: tuple(x[0] for x in e.ts.get('open', ())))
-    run.require(n >= (2 if run.cfg == 'base' else 0) or run.fixture_mode, 'R-CONSUME-AGREE(hand-back): fewer than 2 calls that pass a record field to a may-delete-and-return function found')
+    run.require_count(n >= (2 if run.cfg == 'base' else 0) or run.fixture_mode, 'R-CONSUME-AGREE(hand-back): fewer than 2 calls that pass a record field to a may-delete-and-return function found')
